@@ -83,23 +83,16 @@ def ok_blocks(view):
 
 
 def helper_pass_edges(view, callee_rx, arg_pred=None):
-    """Continue edges of `helper(arg)?` calls (arg_pred filters on the origins of arg0)."""
+    """Edges on which `helper(arg)` returned Ok, tested by `?`, match, if-let or is_err (arg_pred filters on the origins of arg0)."""
+    from ..guards import result_ok_edges
     rx = re.compile(callee_rx)
     edges = []
     sites = []
-    for b in sorted(view.live_blocks()):
-        te = try_edges(view, b)
-        if not te:
-            continue
-        cont, brk, bblock, inner = te
-        for o in view.origins_of_operand(inner, at=view.at_term(bblock)):
-            if o.kind == "call" and rx.search(o.a):
-                fn, bb = o.b.rsplit(":bb", 1)
-                t = view.blocks[int(bb)]["t"]
-                a0 = view.origins_of_operand(t["args"][0], at=view.at_term(int(bb)))
-                if arg_pred is None or arg_pred(a0):
-                    edges += cont
-                    sites.append((int(bb), a0))
+    for ok_e, hb, t in result_ok_edges(view, rx):
+        a0 = view.origins_of_operand(t["args"][0], at=view.at_term(hb))
+        if arg_pred is None or arg_pred(a0):
+            edges += ok_e
+            sites.append((hb, a0))
     return edges, sites
 
 
